@@ -168,6 +168,13 @@ def ev_tree(case) -> R:
                    f"{proj['name']}|{case['opt']}")
     doc = spdxdoc.parse(text)[0] if not r.viol else None
     if doc:
+        # the file sections against the specification model of the tree (not only against lint, which shares the tool's file walk)
+        want_files = verdict.expected(proj, unreadable)["files"]
+        got_files = sorted(f["FileName"][2:] for f in spdxdoc.parse(text)[1])
+        if got_files != want_files:
+            extra, missing = sorted(set(got_files) - set(want_files)), sorted(set(want_files) - set(got_files))
+            r.violation(f"file-sections-vs-model|{'extra' if extra else 'missing'}|{proj['name']}",
+                        f"base {proj['name']} {case['defects']}: File sections for non-covered files {extra}; covered files without a section {missing}")
         creators = doc.get("Creator", [])
         person = {"plain": "Anonymous ()", "organization": "Anonymous ()", "output-file": "Anonymous ()",
                   "concluded+person": "Jane Doe (jane@example.com)", "concluded+both": "Jane ()"}[case["opt"]]
